@@ -69,15 +69,28 @@ def plans(ld):
         'empty-tuple-selects-nothing': ((), lambda j: (FE, E1)[j % 2]),
         'other-type-listed': (E2, lambda j: (FE, E1)[j % 2]),
         'subclass-listed-superclass-raised': (Sub1, lambda j: E1),
+        # exception types that stages use for their own control flow (end of
+        # input, missing key, missing capability): raised by USER code they
+        # are ordinary exceptions - dropped when listed, propagated otherwise
+        'indexerror-listed': (IndexError, lambda j: IndexError),
+        'lookuperror-listed': (LookupError, lambda j: (IndexError, KeyError)[j % 2]),
+        'control-types-listed': ((AssertionError, NotImplementedError, TypeError, ValueError),
+                                 lambda j: (AssertionError, NotImplementedError, TypeError,
+                                            ValueError)[j % 4]),
+        'indexerror-unlisted': (E2, lambda j: IndexError),
+        'keyerror-unlisted': (E2, lambda j: KeyError),
+        'control-types-unlisted': (E2, lambda j: (AssertionError, NotImplementedError,
+                                                  TypeError, AttributeError)[j % 4]),
     }
 
 
 UNSELECTED_PLANS = ('empty-tuple-selects-nothing', 'other-type-listed',
-                    'subclass-listed-superclass-raised')
+                    'subclass-listed-superclass-raised', 'indexerror-unlisted',
+                    'keyerror-unlisted', 'control-types-unlisted')
 
 
-SITES = ('map', 'map-map', 'under-slice', 'concat-part', 'in-batch', 'after-items',
-         'filterfn')
+SITES = ('map', 'map-map', 'under-slice', 'concat-part', 'concat-part-first', 'in-batch',
+         'in-batch3', 'after-items', 'filterfn')
 
 
 class Raiser:
@@ -126,11 +139,18 @@ def build(ld, n, site, raiser):
         ds = other.concatenate(src.map(raiser))
         model = [(f'q{i}', [], 100 + i) for i in range(2)] + \
                 [(keys[i], [i], val(i)) for i in range(n)]
-    elif site == 'in-batch':
-        ds = src.map(raiser).batch(2)
+    elif site == 'concat-part-first':
+        # the raising part is followed by another part
+        other = ld.new({f'q{i}': 100 + i for i in range(2)})
+        ds = src.map(raiser).concatenate(other)
+        model = [(keys[i], [i], val(i)) for i in range(n)] + \
+                [(f'q{i}', [], 100 + i) for i in range(2)]
+    elif site in ('in-batch', 'in-batch3'):
+        bs = 2 if site == 'in-batch' else 3
+        ds = src.map(raiser).batch(bs)
         model = []
-        for b in range(0, n, 2):
-            ids = list(range(b, min(b + 2, n)))
+        for b in range(0, n, bs):
+            ids = list(range(b, min(b + bs, n)))
             model.append((None, ids, [val(i) for i in ids]))
     elif site == 'after-items':
         ds = src.items().map(lambda kv: (kv[0], raiser(kv[1])))
@@ -168,7 +188,7 @@ def check(ld, n, failing, plan, site, with_key, foreign_at, res, foreign_type=Fo
     exceptions, types = plans(ld)[plan]
     raiser = Raiser(failing, types, foreign_at, foreign_type)
     ds, model = build(ld, n, site, raiser)
-    if model is None or (with_key and site == 'in-batch'):
+    if model is None or (with_key and site.startswith('in-batch')):
         return
     bad = set(failing)
     unselected = plan in UNSELECTED_PLANS
